@@ -274,17 +274,11 @@ def identify_error_call(rec):
         return ("node", i)
     if q.endswith(".read") or q.endswith(".write"):
         op = q.rsplit(".", 1)[1]
-        pp = rec.extra.get("physical_plan")
         name = None
-        if pp is not None:
-            g = pp[0].graph
-            if call in g:
-                from model.stores import SimStore
-
-                for p in g.predecessors(call):
-                    v = getattr(p, "value", None)
-                    if isinstance(v, SimStore):
-                        name = v.name
+        if rec.physical is not None:
+            k = rec.physical["by_node"].get(id(call))
+            if k is not None:
+                name = k[1]
         return (op, name)
     return ("other", q)
 
